@@ -64,7 +64,7 @@ pub fn run_check(ctx: &Ctx) -> i32 {
         transitions += r.transitions;
         per_root.push(json!({"root": name, "states": r.states, "transitions": r.transitions, "depth": d, "capped": r.capped}));
     }
-    let (sd0, sd1) = if ctx.tier == Tier::Quick { (5, 4) } else { (7, 6) };
+    let (sd0, sd1) = if ctx.tier == Tier::Quick { (5, 4) } else { (6, 5) };
     for (name, prefix, class) in c08::settings_roots(true) {
         let d = if class == 0 { sd0 } else { sd1 };
         let r = match c08::bfs(prefix, d, if ctx.tier == Tier::Quick { 6_000 } else { 300_000 }, 7 | 0x80) {
